@@ -206,6 +206,31 @@ func init() {
 		b.t = TStr("")
 		return tuple{line, i.pkgVar("io", "EOF")}
 	}
+	intrinsics["(*bytes.Buffer).WriteTo"] = func(i *Interp, caller *frame, _ *ssa.Function, a []value) value {
+		b := i.builder(a[0])
+		t := b.t
+		b.t = TStr("")
+		if t.Const && t.S == "" {
+			return tuple{TBV(64, 0), iface{}}
+		}
+		r := i.writeTo(caller, a[1].(iface), t).(tuple)
+		return tuple{r[0], r[1]}
+	}
+	// the buffer is a memory cell of whoever owns it: its methods are reads / writes of it
+	// for the race check (the model keeps no finer-grained cells for its internals)
+	for k, orig := range intrinsics {
+		if !strings.HasPrefix(k, "(*bytes.Buffer).") {
+			continue
+		}
+		orig := orig
+		write := !(strings.HasSuffix(k, ".String") || strings.HasSuffix(k, ".Len") || strings.HasSuffix(k, ".Bytes"))
+		intrinsics[k] = func(i *Interp, caller *frame, fn *ssa.Function, a []value) value {
+			if p, ok := a[0].(*value); ok && p != nil {
+				i.raceAccess(caller, p, write, "a bytes.Buffer")
+			}
+			return orig(i, caller, fn, a)
+		}
+	}
 	intrinsics["io.Copy"] = func(i *Interp, caller *frame, _ *ssa.Function, a []value) value {
 		src := a[1].(iface)
 		if p, ok := src.v.(*value); ok && src.t != nil && src.t.String() == "*bytes.Buffer" {
